@@ -452,6 +452,29 @@ theorem fieldJsonOk_group_nonopt (f : FieldD) (h : fieldJsonOk f = true) (hg : f
 
 /-! ### a whole message from its slots -/
 
+/-- a rebuilt value is already marked present: the marking `__setattr__` applies to field-less
+    constructor arguments changes nothing -/
+theorem markEmpty_jrt (S : Schema) (E : Enums) (cs : KeyCase) (v : Val) :
+    markEmpty S (jrt S E cs v) = jrt S E cs v := by
+  cases v <;> rw [jrt] <;> simp [markEmpty]
+
+theorem emitted2_marked (S : Schema) (E : Enums) (cs : KeyCase) (fs : List FieldD) (cur : List (Option Nat)) :
+    ∀ (sl : List Val) (idx : Nat),
+      (emitted2 S E cs fs cur idx sl).map (fun (p : Nat × Val) => (p.1, markEmpty S p.2)) = emitted2 S E cs fs cur idx sl := by
+  intro sl
+  induction sl with
+  | nil => intro idx; simp [emitted2]
+  | cons v vs ih =>
+    intro idx
+    rw [emitted2]
+    cases hf : fs[idx]? with
+    | none => simp
+    | some f =>
+      simp only
+      cases toDictSlot S E cs false f (hidden f idx cur) (selectedInGroup f idx cur) v with
+      | none => simpa using ih (idx + 1)
+      | some j => simp [markEmpty_jrt, ih (idx + 1)]
+
 theorem msg_assemble (S : Schema) (E : Enums) (cs : KeyCase) (hS : SchemaOk S E cs) (c : Nat) (sl : List Val)
     (cur : List (Option Nat)) (hlen : sl.length = (fieldsOf S c).length) (hcl : cur.length = groupsOf S c)
     (hcp : curPoints (fieldsOf S c) cur = true)
@@ -472,6 +495,7 @@ theorem msg_assemble (S : Schema) (E : Enums) (cs : KeyCase) (hS : SchemaOk S E 
     slotsDEqv_jrt S E cs _ cur sl 0 (by omega) hrt0⟩
   unfold fromDictCls construct
   simp only
+  rw [emitted2_marked S E cs (fieldsOf S c) cur sl 0]
   rw [initSlots_emitted2 S E cs (fieldsOf S c) cur sl 0 (fieldsOf S c) (by simp) hlen,
     initCur_jrtSlots S E cs (fieldsOf S c) (groupsOf S c) sl cur (schema_groups S E cs hS c)
       (fun f hf hg => fieldJsonOk_group_nonopt f (schema_field S E cs hS c f hf) hg) hcl hlen hcp hrt]
